@@ -78,13 +78,16 @@ def all_formats_tree(rng):
 
 
 def gen_storage_case(rng, kind):
-    """one object, a creator and 2-4 further writers whose base serials are chosen among the
-    revisions committed so far (so there are pairs and chains of concurrent writers)"""
-    cid, args = rng.choice(RECORD_CLASSES)
-    oid = rng.choice([1, 7, 300])
+    """one or two objects (each with its own record class), a creator and 2-5 further writers whose
+    base serials are chosen among the revisions committed so far (pairs and chains of concurrent
+    writers); with two objects the conflicts interleave, so that the process-wide `_unresolvable`
+    cache filled by one class is in place when the other class conflicts"""
+    noid = rng.choice([1, 1, 2])
+    oids = rng.sample([1, 7, 300], noid)
+    klass = {oid: rng.choice(RECORD_CLASSES) for oid in oids}
 
-    def rec(c=None, a=None):
-        c, a = (cid, args) if c is None else (c, a)
+    def rec(oid, c=None, a=None):
+        c, a = klass[oid] if c is None else (c, a)
         if c == 1:
             tree = rng.randrange(50)
         elif rng.random() < 0.3:
@@ -94,39 +97,45 @@ def gen_storage_case(rng, kind):
         return L.rec_wire(c, a, tree)
     ops = []
     tid = 10
-    tids = []
+    tids = {oid: [] for oid in oids}
     if kind.startswith('demo') and rng.random() < 0.5:
-        ops.append('base 5 %d %s' % (oid, rec()))
-        tids.append(5)
+        ops.append('base 5 %d %s' % (oids[0], rec(oids[0])))
+        tids[oids[0]].append(5)
     t = 0
-    for w in range(rng.choice([3, 4, 5])):
+    for w in range(rng.choice([3, 4, 5]) * noid):
         t += 1
         tid += rng.choice([1, 5])
-        r = rng.random()
-        if not tids:
-            serial = 0
-        elif r < 0.45:
-            serial = tids[-1]                       # up to date
-        elif r < 0.92:
-            serial = rng.choice(tids)               # some earlier revision: conflict
-        else:
-            serial = rng.choice([0, tids[0] - 1, tids[-1] + 1])      # a serial that never existed
         ops.append('begin %d %d' % (t, tid))
-        # now and then the class of the conflicting record differs from the stored one
-        if rng.random() < 0.12:
-            c2, a2 = rng.choice(RECORD_CLASSES)
-            ops.append('store %d %d %d %s' % (t, oid, serial, rec(c2, a2)))
-        else:
-            ops.append('store %d %d %d %s' % (t, oid, serial, rec()))
-        if rng.random() < 0.15:                     # a second object in the same transaction
-            ops.append('store %d %d 0 %s' % (t, oid + 1000 + w, L.rec_wire(2, 0, w)))
+        stored = []
+        for oid in rng.sample(oids, rng.choice([1, 1, noid])):
+            have = tids[oid]
+            r = rng.random()
+            if not have:
+                serial = 0
+            elif r < 0.40:
+                serial = have[-1]                       # up to date
+            elif r < 0.92:
+                serial = rng.choice(have)               # some earlier revision: conflict
+            else:
+                serial = rng.choice([0, have[0] - 1, have[-1] + 1])      # a serial that never existed
+            # now and then the class of the conflicting record differs from the stored one
+            if rng.random() < 0.12:
+                c2, a2 = rng.choice(RECORD_CLASSES)
+                ops.append('store %d %d %d %s' % (t, oid, serial, rec(oid, c2, a2)))
+            else:
+                ops.append('store %d %d %d %s' % (t, oid, serial, rec(oid)))
+            stored.append(oid)
+        if rng.random() < 0.15:                     # an unrelated new object in the same transaction
+            ops.append('store %d %d 0 %s' % (t, 5000 + w, L.rec_wire(2, 0, w)))
         ops.append('vote %d' % t)
         if rng.random() < 0.9:
             ops.append('finish %d' % t)
-            tids.append(tid)        # belief; a failed store leaves a transaction without the object
+            for oid in stored:
+                tids[oid].append(tid)   # belief; a failed store leaves a transaction without the object
         else:
             ops.append('abort %d' % t)
-    ops += ['cur %d' % oid, 'load %d' % oid, 'hist %d' % oid]
+    for oid in oids:
+        ops += ['cur %d' % oid, 'load %d' % oid, 'hist %d' % oid]
     return dict(section='storage', kind=kind, ops=ops)
 
 
@@ -225,6 +234,37 @@ def live_wire(x, conn):
     return 'a%d.' % x
 
 
+class GhostProbe:
+    """second data manager, sorted after the Connection: its tpc_finish runs right after
+    Connection.tpc_finish and before the synchronizers start the next transaction — the only moment
+    at which "the writer's connection discarded its own copy" is observable (afterwards the pending
+    invalidation of the competing commit ghostifies the object anyway)"""
+
+    def __init__(self, obj, out):
+        self.obj, self.out = obj, out
+
+    def sortKey(self):
+        return '~~probe'
+
+    def abort(self, txn):
+        pass
+
+    def tpc_begin(self, txn):
+        pass
+
+    def commit(self, txn):
+        pass
+
+    def tpc_vote(self, txn):
+        pass
+
+    def tpc_finish(self, txn):
+        self.out.append(self.obj._p_changed is None)
+
+    def tpc_abort(self, txn):
+        pass
+
+
 class World:
     def __init__(self, case, tmp, tag):
         import transaction
@@ -295,10 +335,16 @@ def run_db_real(case, tmp, tag='d'):
                 elif step[0] == 'commit':
                     import threading
                     w.rec.last_finish.pop(threading.get_ident(), None)
+                    w.rec.last_vote.pop(threading.get_ident(), None)
+                    ghost = []
+                    if dirty[step[1]]:
+                        tm.get().join(GhostProbe(x, ghost))
                     out = c03.commit_outcome(tm)
                     tid = w.rec.last_finish.get(threading.get_ident()) if out == 'ok' and dirty[step[1]] else None
                     dirty[step[1]] = False
-                    log.append(('commit', step[1], out, tid, live_wire(conn.root()['X'].v, conn)))
+                    voted = w.rec.last_vote.get(threading.get_ident()) or []
+                    log.append(('commit', step[1], out, tid, live_wire(conn.root()['X'].v, conn),
+                                w.xoid in voted, ghost))
                 else:
                     tm.abort()
                     dirty[step[1]] = False
@@ -331,6 +377,11 @@ def oracle_db(res):
             st = stored.get(e[3])
             if st is None:
                 P.append(('C10:final-state-differs', 'commit %d left no revision of the object' % e[3]))
+            elif e[5] and e[6] != [True]:
+                P.append(('C10:resolved-not-ghostified',
+                          'commit %d of connection %d stored a resolved (merged) state for the object, tpc_vote '
+                          'reported it, but right after tpc_finish the connection still holds its own copy '
+                          '(not ghostified)' % (e[3], e[1])))
             elif st.split('/', 2)[2] != e[4]:
                 P.append(('C10:resolved-not-ghostified',
                           'after commit %d the writing connection %d reads %s but the stored revision holds %s '
